@@ -493,6 +493,6 @@ func c09Main(args []string) int {
 	_ = os.WriteFile(*outDir+"/c09_cases.json", all, 0644)
 	bz, _ := json.MarshalIndent(rep, "", " ")
 	_ = os.WriteFile(*outDir+"/c09_report.json", bz, 0644)
-	fmt.Printf("c09: %d cases, %d steps, %d twin runs, %d twin failures\n", rep.Cases, rep.Steps, rep.TwinRuns, len(rep.TwinFailures))
+	say("c09: %d cases, %d steps, %d twin runs, %d twin failures\n", rep.Cases, rep.Steps, rep.TwinRuns, len(rep.TwinFailures))
 	return 0
 }
